@@ -236,6 +236,8 @@ def r3(ctx):
                       "Ok(Either::Right(changeset)) can be returned while read instructions (unchecked roots) are pending", [loc(fa, bb, s) for bb, s, t in okr])
             for bb, s, t in okr:
                 payload = agg_field(agg_field(t, "0"), "0")
+                if term_has_call(payload, MT_CHANGESET) is None and resolve_mutlocal(fa, payload) is not None:
+                    payload = resolve_mutlocal(fa, payload)   # the &mut-escaping variable, at its initial value
                 ctx.check(P, rule, "released changeset is the one verify_tree/verify_upgrade filled", term_has_call(payload, MT_CHANGESET) is not None, "changeset from self.changeset()",
                           "returned changeset is %s" % term_str(payload)[:80])
 
